@@ -10,6 +10,10 @@ import (
 // versionPattern matches NuGet version strings following SemVer 2.0 with .NET extensions
 var versionPattern = regexp.MustCompile(`^v?(\d+)(?:\.(\d+))?(?:\.(\d+))?(?:\.(\d+))?(?:-([0-9A-Za-z-]+(?:\.[0-9A-Za-z-]+)*))?(?:\+([0-9A-Za-z-]+(?:\.[0-9A-Za-z-]+)*))?$`)
 
+// numericIdentifier matches pre-release identifiers that SemVer treats as numbers: digits only.
+// Identifiers such as "-5" are alphanumeric although strconv.Atoi would accept them.
+var numericIdentifier = regexp.MustCompile(`^[0-9]+$`)
+
 // Version represents a NuGet package version following SemVer 2.0 with .NET extensions
 type Version struct {
 	major      int
@@ -173,6 +177,9 @@ func compareInt(a, b int) int {
 
 // parseNum returns the integer value and true if s is a valid number, otherwise 0 and false
 func parseNum(s string) (int, bool) {
+	if !numericIdentifier.MatchString(s) {
+		return 0, false
+	}
 	if num, err := strconv.Atoi(s); err == nil {
 		return num, true
 	}
